@@ -33,6 +33,8 @@ add("unsorted-rendering","C10","spec.go","\t\t\tsort.Strings(pns) // duplicates 
 add("early-return-unguarded","C10","spec.go","\terrs.Merge(s.validateDuplicateOperationIDs())\n","\terrs.Merge(s.validateDuplicateOperationIDs())\n\tif errs.HasErrors() {\n\t\treturn errs, warnings\n\t}\n","RULE-SEQ:return:unguarded", quick=False)
 # C12
 add("default-written-into-instance","C12","object_validator.go","\t\t\tcreatedFromDefaults[pName] = struct{}{}\n","\t\t\tcreatedFromDefaults[pName] = struct{}{}\n\t\t\tval[pName] = pSchema.Default\n","INPUT-RO:(*objectValidator).validatePropertiesSchema")
+add("schema-map-written-through-validator-field","C12","object_validator.go","\tnumKeys := int64(len(val))\n","\tnumKeys := int64(len(val))\n\tdelete(o.Properties, \"\")\n","INPUT-RO:(*objectValidator).Validate:delete on", quick=False)
+add("definitions-walked-in-place","C12","default_validator.go","\t\t\tsch, err := deepCloneSchema(def)\n","\t\t\tsch, err := def, error(nil)\n","INPUT-RO:newSchemaValidator:spec.ExpandSchema", quick=False)
 # C13
 add("constraint-truncated","C13","values.go","\t\tif !isExactInt64(maximum) {\n\t\t\t// fractional or out-of-range constraint: no loss-free integer version of it exists\n\t\t\treturn Maximum(path, in, float64(value), maximum, exclusive)\n\t\t}\n","","NARROW:MaximumNativeType:int64(maximum)")
 # C14
